@@ -60,6 +60,11 @@ claimed = {
    technique='explicit-state search over operation histories of each real container against its abstract model (BFS with state merging to the fixpoint where the model state is canonical, depth-bounded DFS otherwise)',
    text='29 systems: ShrinkingMap (5 shrink-threshold settings), RandomMap, ds and timed PriorityQueue (ascending/descending, removal handles), Queue/RingBuffer/BytesFilter (capacities 1-3), Stack (both flavours), Walker (revisit on/off), TimeHeap (virtual clock), IndexedStorage, OnChangeMap (callbacks on/off, failing), SubscriptionManager (limits 0/2/3, 2 clients x 3 topics). Every history over a small universe is applied to the real object and to the model; all return values, all read-only probes, and every emitted callback/event are compared after every step; random picks are checked for membership and distinctness.',
    note='Trusted: the abstract models written for this check. Four genuine defects repaired (fix: commits in ds/walker, ds/timeheap, web/subscriptionmanager).', ref='2 C12'),
+
+ 'C09': dict(cat='model_checking', engine='H',
+   technique='exhaustive depth-bounded enumeration of operation histories on the real authenticated map/set over mapdb against a plain map model plus a differential content-only-root oracle',
+   text='Every history up to depth 5 (map; 18 operations) / 6 (set; 10 operations), thorough +1, of Set/Add, Delete, Commit and Reopen (clean state only) over 4 keys (two sharing the first byte of their SHA-256 path) and values empty/a/b. After every step: Get/Has of every key, Size, Stream, Delete results equal the model; Root equals the root of a fresh instance built from the same contents in canonical order (so equal contents reached through any history give equal roots) and distinct contents have distinct roots; after Reopen root, size, contents are unchanged and WasRestoredFromStorage == (a Commit happened).',
+   note='Trusted: plain-map model; pokt-network/smt is exercised as part of the system, not modelled. Reopen only after Commit/pristine.', ref='2 C09'),
 }
 na_reason = 'check not built yet in this round (engine exists; see DESIGN.md section 9 for the order of work)'
 checks = []
